@@ -59,6 +59,14 @@ def check(run):
                 haswin, winlen = True, x2 - x1 + 1
             p.append(dict(op=o, x1=x1, y1=y1, x2=x2, y2=y2, v=500 + j))
         plans.append(p)
+    # floats with negative zero and an element type that cannot be compared
+    for ty, vals in (("float", (-1000, 0, 3)), ("slice", (0, 4))):
+        for (w, h) in ((1, 1), (2, 2), (3, 1)):
+            for v in vals:
+                p = [dict(op="Reset", ty=ty), dict(op="NewFilled", w=w, h=h, v=v), dict(op="Set", x1=0, y1=0, v=vals[0]), dict(op="Get", x1=w - 1, y1=h - 1),
+                     dict(op="Fill", x1=0, y1=0, x2=w - 1, y2=h - 1, v=vals[-1]), dict(op="Clone"), dict(op="Fill", x1=0, y1=0, x2=0, y2=0, v=vals[0]),
+                     dict(op="New", w=w, h=h), dict(op="NewJagged", w=w, h=h, lens=[1])]
+                plans.append(p)
     # large and lopsided shapes
     for (w, h) in ((33, 17), (1, 200), (200, 1), (64, 64)) if run.quick() else ((33, 17), (1, 200), (200, 1), (64, 64), (300, 7), (7, 300), (128, 129)):
         p = [dict(op="Reset", ty="int"), dict(op="New", w=w, h=h)]
